@@ -57,6 +57,8 @@ func one(r *vx.Run, in input) {
 		pageSizeOne(r, in)
 	case "store", "http-v1", "http-v2":
 		listingWalk(r, in)
+	case "follow-v1", "follow-v2":
+		followWalk(r, in)
 	}
 }
 
@@ -334,6 +336,37 @@ func main() {
 		lst := []string{"transactions", "logs"}[g.Intn(2)]
 		one(r, input{Kind: "http-v2", Listing: lst, Table: tbl, Own: "l1", SizeParam: sp("100"), Pit: pit})
 		one(r, input{Kind: "http-v1", Listing: lst, Table: tbl, Own: "l1", SizeParam: sp([]string{"100", "101", "150"}[g.Intn(3)]), Pit: pit})
+	}
+	// 1c. the library's HTTP follower (api.FetchAllPaginated) over the v1 and v2 routers: collections of 0..7 items,
+	// page sizes 1, 2, size-1, size, size+1; contents compared item by item. Every tier, every seed.
+	for n := 0; n <= 7; n++ {
+		seen := map[int]bool{}
+		for _, ps := range []int{1, 2, n - 1, n, n + 1} {
+			if ps < 1 || seen[ps] {
+				continue
+			}
+			seen[ps] = true
+			for _, listing := range []string{"transactions", "accounts", "logs"} {
+				var tbl []brow
+				for i := 0; i < n; i++ {
+					tbl = append(tbl, brow{Ledger: "l1", ID: int64(i), Attr: g.Intn(3)})
+				}
+				for i := 0; i < g.Intn(3); i++ {
+					tbl = append(tbl, brow{Ledger: "l2", ID: int64(i), Attr: g.Intn(3)})
+				}
+				for i := len(tbl) - 1; i > 0; i-- {
+					j := g.Intn(i + 1)
+					tbl[i], tbl[j] = tbl[j], tbl[i]
+				}
+				one(r, input{Kind: "follow-v2", Listing: listing, Table: tbl, Own: "l1", SizeParam: sp(fmt.Sprint(ps)), Pit: pit})
+				in := input{Kind: "follow-v1", Listing: listing, Table: tbl, Own: "l1", SizeParam: sp(fmt.Sprint(ps)), Pit: pit}
+				one(r, in)
+				in.Filter = genListingFilter(g, listing, true, true) // v1 filters are URL parameters; v2 filters need a body, which the follower cannot send
+				if in.Filter != nil {
+					one(r, in)
+				}
+			}
+		}
 	}
 	// 2. the hypotheses: page size 0, duplicate keys (the calls go to the model; the walk oracle is off)
 	for n := 0; n <= 4; n++ {
